@@ -1111,15 +1111,17 @@ theorem cmdHeader_ext {cfg} {lv : Bool} {s : S} {r s1} (h : cmdHeader s = (r, s1
           · cases h; exact ⟨e4, l4⟩
 
 theorem runHandler_ext {cfg} {lv : Bool} {name : Bytes} {s : S} {b e s1} (hl : s.listDepth = 0)
-    (h : runHandler (handlerOf cfg name) s = (b, e, s1)) : Ext cfg lv s s1 := by
+    (h : runHandler name (handlerOf cfg name) s = (b, e, s1)) : Ext cfg lv s s1 := by
   unfold runHandler at h
+  have e0 : Ext cfg lv s (s.emit (.dispatch name)) := Ext.emit (by trivial)
+  dsimp only at h
   split at h
   · rename_i f hf
     cases h
-    exact handlerOf_ext hf s _ _ hl rfl
+    exact e0.trans (handlerOf_ext hf (s.emit (.dispatch name)) _ _ hl rfl)
   · split at h
-    · cases h; exact .of_eq ⟨rfl, rfl, rfl⟩
-    · cases h; exact .refl
+    · cases h; exact e0.trans (.of_eq ⟨rfl, rfl, rfl⟩)
+    · cases h; exact e0
 
 theorem ite_emit_ext {cfg} {lv : Bool} (c : Prop) [Decidable c] (s : S) (e : Event) (hg : Good cfg lv e) :
     Ext cfg lv s (if c then s.emit e else s) := by
@@ -1151,8 +1153,8 @@ theorem readCommand_ext {cfg} {s : S} {b s1} (h : readCommand cfg s = (b, s1)) :
     split at h
     · cases h; exact e2.trans (Ext.emit (by trivial))
     · rename_i hh hne
-      have e3 : Ext cfg false s (runHandler (handlerOf cfg name) s2).2.2 := e2.trans (runHandler_ext l2 rfl)
-      generalize runHandler (handlerOf cfg name) s2 = p3 at h e3
+      have e3 : Ext cfg false s (runHandler name (handlerOf cfg name) s2).2.2 := e2.trans (runHandler_ext l2 rfl)
+      generalize runHandler name (handlerOf cfg name) s2 = p3 at h e3
       obtain ⟨bu, e, s3⟩ := p3
       dsimp only at h e3
       split at h
@@ -1206,9 +1208,9 @@ theorem readCommand_go_lt {cfg} {s : S} {s1} (h : readCommand cfg s = (true, s1)
     split at h
     · cases h
     · rename_i hh hne
-      have e3 : Ext cfg false s2 (runHandler (handlerOf cfg name) s2).2.2 :=
+      have e3 : Ext cfg false s2 (runHandler name (handlerOf cfg name) s2).2.2 :=
         runHandler_ext (by rw [(cmdHeader_ext (cfg := cfg) (lv := false) h2).2]; rfl) rfl
-      generalize runHandler (handlerOf cfg name) s2 = p3 at h e3
+      generalize runHandler name (handlerOf cfg name) s2 = p3 at h e3
       obtain ⟨bu, e, s3⟩ := p3
       dsimp only at h e3
       split at h
